@@ -9,6 +9,7 @@ uint64_t vf_total(const std::string& mode) {
   if (mode == "units") return 65536;
   if (mode == "pairs") return 1024;
   if (mode == "bytes") return 256;
+  if (mode == "positions") return 700;   // number of bytes decoded before the escape: crosses every growth step of the string builder
   return 0;
 }
 
@@ -101,9 +102,47 @@ static void bytes(Ctx& c, uint64_t index) {
   if ((index & 0x3f) == 0) c.sample("byte " + hexs(std::string(1, (char)b0)) + " alone and followed by each of the 256 byte values, as value and as key");
 }
 
+// escapes after `index` already decoded bytes (the decoder's buffer grows in steps: 31, 63, 127, ... bytes): every encoded length, values and keys
+static void positions(Ctx& c, uint64_t index, Rng& r) {
+  static const uint32_t cps[] = {0x41, 0x7F, 0x80, 0xE9, 0x7FF, 0x800, 0x3042, 0xD7FF, 0xE000, 0xFFFD, 0xFFFF, 0x10000, 0x1F5A4, 0x10FFFF};
+  std::string filler;
+  for (uint64_t i = 0; i < index; i++) filler += (char)('a' + (i * 7 + index) % 26);
+  for (uint32_t cp : cps) for (int key = 0; key < 2; key++) {
+    bool up = r.coin();
+    std::string esc;
+    if (cp >= 0x10000) { uint32_t v = cp - 0x10000; esc = "\\u" + hex4(0xD800 + (v >> 10), up) + "\\u" + hex4(0xDC00 + (v & 0x3FF), !up); }
+    else esc = "\\u" + hex4(cp, up);
+    int reps = (int)r.range(1, 3);
+    std::string body = filler, expect = filler;
+    for (int k = 0; k < reps; k++) { body += esc; expect += ref_utf8(cp); }
+    body += "tail"; expect += "tail";
+    std::string text = key ? "{\"" + body + "\":1}" : "[\"" + body + "\"]";
+    AJ::JsonDocument doc; std::string got;
+    char* in = (char*)malloc(text.size()); memcpy(in, text.data(), text.size());
+    auto err = AJ::deserializeJson(doc, (const char*)in, text.size());
+    free(in);
+    c.count("escape_parses");
+    std::string wit = "U+" + hex4(cp, true) + " x" + std::to_string(reps) + " after " + std::to_string(index) + " bytes, " + (key ? "key" : "value");
+    if (err) { c.violation("escape-rejected", std::string("returned ") + err_name(err), wit); continue; }
+    AJ::JsonString js;
+    if (key) { AJ::JsonObjectConst o = doc.as<AJ::JsonObjectConst>(); auto it = o.begin(); if (it != o.end()) js = it->key(); }
+    else js = doc[0].as<AJ::JsonString>();
+    if (js.isNull()) { c.violation("escape-rejected", "no string in the result", wit); continue; }
+    got.assign(js.c_str(), js.size());
+    if (got != expect) {
+      size_t i = 0; while (i < got.size() && i < expect.size() && got[i] == expect[i]) i++;
+      c.violation("escape-decoded-wrong", "decoded string differs at byte " + std::to_string(i) + ": got " + hexs(got.substr(i, 8)) + ", expected " + hexs(expect.substr(i, 8)), wit);
+    }
+  }
+  c.outcome("position");
+  c.nontrivial(index + 70000);
+  if (index % 97 == 0) c.sample("14 code points (1-4 byte encodings) after " + std::to_string(index) + " decoded bytes, value and key");
+}
+
 void vf_run_case(Ctx& c, uint64_t index) {
   Rng r(c.seed, 17, index);
   if (c.mode == "units") units(c, index);
   else if (c.mode == "pairs") pairs(c, index, r);
+  else if (c.mode == "positions") positions(c, index, r);
   else bytes(c, index);
 }
